@@ -24,8 +24,9 @@ theorem walkDesignated_spec (m : NNet) (w : WF m) : ∀ (fuel n d : Nat), n < m.
       | false => exact Or.inl rfl
       | true => right; simpa using hc hf
 
-theorem implShape_des (m : NNet) (w : WF m) (sh : Shape) (dn : Nat) (hs : implShape m = some sh) (hd : sh.des = some dn) :
-    dn < m.net.nodes.size ∧ (dn ∉ m.net.io → (m.net.node dn).isFork = false) := by
+/-- the designated cell is a node of the implementation; it is a state element, or (repair of D32) it is not a port -/
+theorem implShape_des' (m : NNet) (w : WF m) (sh : Shape) (dn : Nat) (hs : implShape m = some sh) (hd : sh.des = some dn) :
+    dn < m.net.nodes.size ∧ (isSeqKind (m.net.node dn).kind = true ∨ (dn ∉ m.net.io ∧ (m.net.node dn).isFork = false)) := by
   unfold implShape at hs
   dsimp only at hs
   split at hs
@@ -42,13 +43,7 @@ theorem implShape_des (m : NNet) (w : WF m) (sh : Shape) (dn : Nat) (hs : implSh
         cases (Option.some.inj hd)
         have h1 := List.find?_some hseq
         have h2 := List.mem_range.mp (List.mem_of_find?_eq_some hseq)
-        refine ⟨h2, fun _ => ?_⟩
-        cases hf : (m.net.node dn).isFork with
-        | false => rfl
-        | true =>
-          have := fork_not_seq _ hf
-          have h1' : (m.net.node dn).isSeq = true := h1
-          simp [NodeD.isSeq, this.1, this.2] at h1'
+        exact ⟨h2, Or.inl h1⟩
       | none =>
         rw [hseq] at hd
         simp only [Option.isSome_none, Bool.false_eq_true, if_false] at hd
@@ -58,22 +53,48 @@ theorem implShape_des (m : NNet) (w : WF m) (sh : Shape) (dn : Nat) (hs : implSh
         · rename_i l0 hl0
           simp only [Option.map_eq_some_iff] at hd0
           obtain ⟨d, hwalk, e⟩ := hd0
-          cases (Option.some.inj e)
-          -- `l0` is the line at pin 0 of the first output port
-          have hmem : l0 ∈ (List.filterMap id (List.map (fun p => (m.net.node p).inPin 0)
-              (List.filter (fun p => (m.net.node p).ins.length != 0) m.net.io))) := List.mem_of_mem_head? hl0
-          rw [List.mem_filterMap] at hmem
-          obtain ⟨o, ho, e⟩ := hmem
-          simp only [id] at e; subst e
-          rw [List.mem_map] at ho
-          obtain ⟨p, hp, e⟩ := ho
-          have hpio : p ∈ m.net.io := (List.mem_filter.mp hp).1
-          have fi := w.fwdIn p (w.io p hpio) 0 l0 e
-          have := walkDesignated_spec m w _ _ dn (w.back l0 fi.1).1 hwalk
-          refine ⟨this.1, fun hnio => ?_⟩
-          rcases this.2 with h1 | h1
-          · exact h1
-          · exact absurd h1 hnio
+          split at e
+          · exact absurd e (by simp)
+          · rename_i hnio
+            cases (Option.some.inj e)
+            -- `l0` is the line at pin 0 of the first output port
+            have hmem : l0 ∈ (List.filterMap id (List.map (fun p => (m.net.node p).inPin 0)
+                (List.filter (fun p => (m.net.node p).ins.length != 0) m.net.io))) := List.mem_of_mem_head? hl0
+            rw [List.mem_filterMap] at hmem
+            obtain ⟨o, ho, e⟩ := hmem
+            simp only [id] at e; subst e
+            rw [List.mem_map] at ho
+            obtain ⟨p, hp, e⟩ := ho
+            have hpio : p ∈ m.net.io := (List.mem_filter.mp hp).1
+            have fi := w.fwdIn p (w.io p hpio) 0 l0 e
+            have := walkDesignated_spec m w _ _ dn (w.back l0 fi.1).1 hwalk
+            have hnio' : dn ∉ m.net.io := by simpa using hnio
+            refine ⟨this.1, Or.inr ⟨hnio', ?_⟩⟩
+            rcases this.2 with h1 | h1
+            · exact h1
+            · exact absurd h1 hnio'
+
+theorem implShape_des (m : NNet) (w : WF m) (sh : Shape) (dn : Nat) (hs : implShape m = some sh) (hd : sh.des = some dn) :
+    dn < m.net.nodes.size ∧ (dn ∉ m.net.io → (m.net.node dn).isFork = false) := by
+  obtain ⟨h1, h2⟩ := implShape_des' m w sh dn hs hd
+  refine ⟨h1, fun _ => ?_⟩
+  rcases h2 with h2 | h2
+  · cases hf : (m.net.node dn).isFork with
+    | false => rfl
+    | true =>
+      have := fork_not_seq _ hf
+      have h1' : (m.net.node dn).isSeq = true := h2
+      simp [NodeD.isSeq, this.1, this.2] at h1'
+  · exact h2.2
+
+/-- since the repair of D32: when no port of the implementation is a flip-flop/latch the designated cell is not a port -/
+theorem implShape_des_notPort (m : NNet) (w : WF m) (sh : Shape) (dn : Nat) (hs : implShape m = some sh) (hd : sh.des = some dn)
+    (hps : ∀ p ∈ m.net.io, isSeqKind (m.net.node p).kind = false) : dn ∉ m.net.io := by
+  rcases (implShape_des' m w sh dn hs hd).2 with h2 | h2
+  · intro hio
+    rw [hps dn hio] at h2
+    exact absurd h2 (by simp)
+  · exact h2.1
 
 /-! ### the lines after `phase3` -/
 def copL (map : Array (Option Nat)) (ln : LineD) : Bool := (map.getD ln.driver none).isSome && (map.getD ln.reader none).isSome
